@@ -131,7 +131,7 @@ struct World {
     const auto &ps = problems();
     for (int k = 0; k < 4; ++k) { opts.emplace_back(new Opt()); Opt &o = *opts.back(); const auto &p = ps[k == 1 ? 3 : 2]; o.setOptimizationFlags(flags_of(k == 2 ? 0xff : 0x22)); o.setEnergyWeights(k == 1 ? 0.0 : 0.25); o.setIntegralNumSteps(2);
       if (k == 2) { Problem<D> q = p; set_generic_data(q, 99); o.setInitState(q.T, q.P, 3.0, q.bc); }
-      else if (k == 3) { Problem<D> q = p; q.P.row(0) *= 0.5; q.P.row(q.N) += q.P.row(0); q.bc.start_acceleration *= -1.0; q.bc.end_jerk.setConstant(0.75); o.setInitState(q.T, q.P, p.t0 + 1.0, q.bc); }   // D: same layout, durations and inner waypoints as A, other FIXED data
+      else if (k == 3) { Problem<D> q = p; q.bc.start_acceleration *= -1.0; q.bc.end_acceleration.setConstant(0.75); q.bc.start_jerk.setConstant(-0.5); o.setInitState(q.T, q.P, p.t0, q.bc); }   // D: identical to A (layout, durations, ALL waypoints, start time) except for FIXED boundary accelerations / jerk
       else o.setInitState(p.T, p.P, p.t0, p.bc); }
   }
   int nops() const { return 16; }   // optimizer k (4) x decision vector (2) x overload (2); D is evaluated at A's decision vectors (bit-identical x)
